@@ -76,9 +76,12 @@ impl Check for C20 {
         let fail_errno = *tape.pick(&[libc::EIO, libc::ENOSPC, libc::ENOENT, libc::EXDEV, libc::EACCES]);
         let (kh, ks) = solve_key(tape, nshards, (0, 1));
         let in_secondary = tape.draw(2) == 1;
+        // two racing writers can leave one copy in each candidate shard
+        // (documented); the bounds hold in that state too
+        let dup = tape.draw(3) == 0;
         let key = KeySpec { name: "thekey".into(), hash: kh, sec: ks };
         let sizes: Vec<usize> = if maintain { vec![0, 10, 100] } else { SIZES.to_vec() };
-        let desc = format!("front={} depth={} sharded_levels={:?} shards={} checker={:?} op={:?} hit_level={} lower_copy={} maintain={} auto_sync={} key_in_secondary={} {}", ["plain", "sharded", "stack", "readonly"][front as usize], depth, kinds, nshards, checker, op, hit_level, also_lower_copy, maintain, auto_sync, in_secondary, kn.describe()) + &format!(" fail_first_publication={} ({}) warm_handle={}", fail_first_pub, fail_errno, warm);
+        let desc = format!("front={} depth={} sharded_levels={:?} shards={} checker={:?} op={:?} hit_level={} lower_copy={} maintain={} auto_sync={} key_in_secondary={} duplicate={} {}", ["plain", "sharded", "stack", "readonly"][front as usize], depth, kinds, nshards, checker, op, hit_level, also_lower_copy, maintain, auto_sync, in_secondary, dup, kn.describe()) + &format!(" fail_first_publication={} ({}) warm_handle={}", fail_first_pub, fail_errno, warm);
         let mut observations: Vec<Obs> = Vec::new();
         let mut total_steps = 0;
         let mut total_ns = 0;
@@ -105,6 +108,10 @@ impl Check for C20 {
                 if has_copy {
                     let p = if *sharded { format!("{}/{}", path, shard_dir_name(if in_secondary { 1 } else { 0 })) } else { path.clone() };
                     fs.plant_file(&format!("{}/thekey", p), &make_value("thekey", 1, 20), 0o444, past - 120_000_000_000, past);
+                    if dup && *sharded {
+                        let p2 = format!("{}/{}", path, shard_dir_name(if in_secondary { 0 } else { 1 }));
+                        fs.plant_file(&format!("{}/thekey", p2), &make_value("thekey", 1, 20), 0o444, past - 120_000_000_000, past + 1_000_000_000);
+                    }
                 }
                 // capacity: huge when maintenance must not fire
                 let cap = if maintain { (size + 5) * if *sharded { nshards } else { 1 } } else { 100_000_000 };
